@@ -71,7 +71,8 @@ def main():
                             wall_s=round(time.time() - t0, 1), summary=meta.get('summary', '')[:300], needs=meta.get('needs', '')[:300])
         print(sid, prop, 'DETECTED' if viol else 'MISSED', layers, '%.0fs' % (time.time() - t0))
         json.dump(results, open(rpath, 'w'), indent=1)
-    # restore evidence of the unchanged tree is the caller's job (re-run the checks)
+    sh('/venv/bin/python %s/tools/translate.py' % V)     # Generated/*.lean back to the unchanged tree
+    # restoring the evidence files of the unchanged tree is the caller's job (re-run the checks)
     return 0
 
 if __name__ == '__main__':
